@@ -72,7 +72,25 @@ def run_spec(pid, tier, spec, replay=None):
 
 
 def do_replay(pid, spec, path):
-    r = json.load(open(path))["replay"]
+    rec = json.load(open(path))
+    r = rec["replay"]
+    if "args" not in r:
+        # a violation found by the check's post pass (system-call history of the real binary, command-line pass): the pass is small and
+        # deterministic, so it is re-run twice as a whole and the recorded key must come back both times
+        if not spec.get("post"):
+            print("replay file has no harness arguments and the check has no post pass")
+            return 2
+        found = []
+        for _ in range(2):
+            _, pv = spec["post"]("quick")
+            found.append(sorted(v["desc"] for v in pv if v.get("key") == rec.get("key")))
+        print(json.dumps({"t": "replay", "key": rec.get("key"), "verdict": "violation" if found[0] else "holds", "instances": found[0][:3], "deterministic": found[0] == found[1]}))
+        if found[0] != found[1]:
+            return 3
+        if found[0]:
+            print("VIOLATION property=%s replay=%s" % (pid, path))
+            return 1
+        return 0
     args = dict(a.split("=", 1) for a in r["args"].split() if "=" in a)
     tier = args.get("tier", "quick")
     # find the build whose args match the mode of the replay
